@@ -192,6 +192,25 @@ def check(F, rep, tier):
             if f.path in reach2: rep.ok("R10.5", "the greatest tag is chosen (%s) with a comparator that reaches <SemVer as Ord>::cmp" % shape, nontrivial_key="maxby")
             else: rep.bad("R10.5", "max-by-other-order", "the comparator used to choose the greatest tag does not reach <SemVer as Ord>::cmp", fm.where())
         tag_choice_rule(F, rep, cg, fm, "R10.5", "SemVer", "build_metadata")
+    # ---- R10.8 a tag name stays paired with the version parsed from it -------------------------------------------------------------
+    npair = 0; nbad = 0
+    for p_, g_ in sorted(F.fns.items()):
+        if not ("crate::version::version_object::" in p_ or "crate::vcs::git_utils::" in p_) or "::tests" in p_: continue
+        for bi, t in g_.calls():
+            c_ = mir.callee(t) or ""
+            if not (c_.endswith("Iterator>::zip") or c_.endswith("Iterator::zip")) or len(t[2]) < 2: continue
+            npair += 1
+            thin = set()
+            for a_ in t[2][:2]:
+                for k, d in mir.deep_origins(g_, a_, stop=()):
+                    if k == "call" and d.isdigit() and g_.blocks[int(d)]["t"][0] == "call":
+                        nm = (mir.callee(g_.blocks[int(d)]["t"]) or "").rsplit("::", 1)[-1]
+                        if nm in ("flatten", "filter", "filter_map", "skip_while", "take_while", "flat_map", "dedup", "retain", "skip", "step_by"): thin.add(nm)
+            site = "%s bb%d line %s" % (g_.where(), bi, g_.blocks[bi]["line"])
+            if thin:
+                nbad += 1
+                rep.bad("R10.8", "pairing-after-filter:" + p_.replace("crate::", "").rsplit("::", 1)[-1], "tag names are zipped with a list of parsed versions that went through %s: after the first tag that does not parse, names and versions are out of step, and the tag reported as greatest is not the greatest one" % sorted(thin), site)
+    if not nbad: rep.ok("R10.8", "names and parsed versions are paired element by element before any filtering (%d zip sites examined; pairs are built inside the per-tag closure)" % npair, nontrivial_key="pairing")
     # ---- R10.6 what the comparator sees: numeric identifiers are classified on their full u64 range ---------------
     import parsers
     parsers.numeric_classification(F, rep, "R10.6", "crate::version::semver::parser::", ("PreReleaseIdentifier",), floor=1)
